@@ -13,8 +13,9 @@ SCALARS = list(INT_RANGE) + ["float", "double", "char *", "int *", "void *", "co
 class T:
     """kind: scalar | array | struct | union; bf: bit-field width for scalar members (None otherwise)."""
 
-    def __init__(self, kind, name=None, elem=None, n=0, members=None, tag=None, bf=None):
+    def __init__(self, kind, name=None, elem=None, n=0, members=None, tag=None, bf=None, anon=False):
         self.kind, self.name, self.elem, self.n, self.members, self.tag, self.bf = kind, name, elem, n, members or [], tag, bf
+        self.anon = anon    # anonymous struct/union member: (None, T(..., anon=True)) in the enclosing member list
 
     def decl(self, ident):
         if self.kind == "scalar":
@@ -40,6 +41,8 @@ class T:
         else:
             for mn, mt in self.members:
                 if mn is None:
+                    if mt is not None and mt.anon:
+                        yield from mt.leaves(prefix)
                     continue
                 yield from mt.leaves("%s.%s" % (prefix, mn))
 
@@ -86,6 +89,19 @@ class G:
                 members.append((mn, T("scalar", base, bf=w)))
                 text.append("%s %s:%d;" % (base, mn, w))
                 self.labels.add("bitfield")
+            elif kind == "struct" and d(st.integers(0, 6)) == 0:
+                # anonymous struct or union member (C11 6.7.2.1p13): its members are members of the enclosing type
+                ak = d(st.sampled_from(["struct", "struct", "union"]))
+                inner = []
+                itext = []
+                for _ in range(d(st.integers(1, 3))):
+                    an = self.uid("a")
+                    at = self.scalar() if d(st.integers(0, 3)) else self.type(depth + 2)
+                    inner.append((an, at))
+                    itext.append(at.decl(an) + ";")
+                members.append((None, T(ak, members=inner, anon=True)))
+                text.append("%s { %s };" % (ak, " ".join(itext)))
+                self.labels.add("anonymous-member")
             else:
                 mt = self.type(depth + 1)
                 members.append((mn, mt))
@@ -154,8 +170,8 @@ class G:
         d = self.draw
         if t.kind == "scalar":
             v = self.value(t)
-            if top and d(st.integers(0, 9)) == 0:
-                self.labels.add("scalar-braces")
+            if d(st.integers(0, 9 if top else 14)) == 0:
+                self.labels.add("scalar-braces" if top else "member-scalar-braces")
                 return "{ %s }" % v
             return v
         if d(st.integers(0, 14)) == 0 and not (t.kind == "array" and not t.n):
@@ -236,7 +252,7 @@ class G:
             return None
         parts = []
         for mn, mt in t.members:
-            if mn is None:
+            if mn is None and not (mt is not None and mt.anon):
                 continue
             p = self.flat(mt)
             if p is None:
@@ -245,36 +261,75 @@ class G:
         return ", ".join(parts) if parts else None
 
     def struct_init(self, t):
+        """Struct initialiser.  Positional members include anonymous struct/union members (braced or elided);
+        a designator may name a member of an anonymous member, after which the list continues positionally
+        inside the anonymous struct and then with the enclosing struct's next member."""
         d = self.draw
-        named = [(mn, mt) for mn, mt in t.members if mn is not None]
+        slots = [(mn, mt) for mn, mt in t.members if mn is not None or (mt is not None and mt.anon)]
         items = []
         pos = 0
-        count = d(st.integers(0, len(named) + 2))
+        hi = 0          # one past the highest slot initialised so far
+        count = d(st.integers(0, len(slots) + 2))
         for _ in range(count):
-            if d(st.integers(0, 2)) == 0 or pos >= len(named):
-                pos = d(st.integers(0, len(named) - 1))
-                mn, mt = named[pos]
+            if d(st.integers(0, 2)) == 0 or pos >= len(slots):
+                pos = d(st.integers(0, len(slots) - 1))
+                mn, mt = slots[pos]
+                if mn is None and mt.kind == "union" and pos < hi:
+                    # avoid(assert:emitdata, recorded C19 finding / upstream todo 38): a second initialiser for another
+                    # member of a union whose storage is already initialised trips an assertion for static objects
+                    self.labels.add("avoided:union-member-override")
+                    pos = len(slots)
+                    continue
                 self.labels.add("designator")
-                # nested designator into the member
-                if mt.kind in ("struct",) and d(st.integers(0, 2)) == 0:
+                override = pos < hi
+                if mn is None:
+                    inner = [(n2, t2) for n2, t2 in mt.members if n2 is not None]
+                    k = d(st.integers(0, len(inner) - 1))
+                    n2, t2 = inner[k]
+                    items.append(".%s = %s" % (n2, self.elem_init(t2)))
+                    self.labels.add("anonymous-designator")
+                    if mt.kind == "struct":
+                        # continue positionally with the following members of the anonymous struct
+                        more = d(st.integers(0, len(inner) - 1 - k))
+                        for n3, t3 in inner[k + 1:k + 1 + more]:
+                            items.append(self.elem_init(t3))
+                            self.labels.add("anonymous-continue")
+                        if k + 1 + more < len(inner):
+                            hi = max(hi, pos + 1)
+                            pos = len(slots)    # stopped inside: the next item must carry a designator
+                            continue
+                    self.labels.add("anonymous-then-outer")
+                # nested designator into the member (more often when the member was initialised before: sub-object override)
+                elif mt.kind in ("struct",) and d(st.integers(0, 1 if override else 2)) == 0:
                     sub = [(n2, t2) for n2, t2 in mt.members if n2 is not None]
-                    n2, t2 = d(st.sampled_from(sub))
-                    items.append(".%s.%s = %s" % (mn, n2, self.elem_init(t2)))
-                    self.labels.add("nested-designator")
-                    pos = len(named)   # the current object is now inside .mn: the next item must carry a designator
-                elif mt.kind == "array" and mt.n and d(st.integers(0, 2)) == 0:
+                    if sub:
+                        n2, t2 = d(st.sampled_from(sub))
+                        items.append(".%s.%s = %s" % (mn, n2, self.elem_init(t2)))
+                        self.labels.add("nested-designator")
+                        if override:
+                            self.labels.add("subobject-override")
+                        hi = max(hi, pos + 1)
+                        pos = len(slots)   # the current object is now inside .mn: the next item must carry a designator
+                        continue
+                    items.append(".%s = %s" % (mn, self.elem_init(mt)))
+                elif mt.kind == "array" and mt.n and d(st.integers(0, 1 if override else 2)) == 0:
                     i = d(st.integers(0, mt.n - 1))
                     items.append(".%s[%d] = %s" % (mn, i, self.elem_init(mt.elem)))
                     self.labels.add("nested-designator")
-                    pos = len(named)
+                    if override:
+                        self.labels.add("subobject-override")
+                    hi = max(hi, pos + 1)
+                    pos = len(slots)
+                    continue
                 else:
                     items.append(".%s = %s" % (mn, self.elem_init(mt)))
             else:
-                mn, mt = named[pos]
+                mn, mt = slots[pos]
                 items.append(self.elem_init(mt))
             pos += 1
+            hi = max(hi, pos)
         if not items:
-            mn, mt = named[0]
+            mn, mt = slots[0]
             items.append(self.elem_init(mt))
         return "{ %s }" % ", ".join(items)
 
